@@ -53,6 +53,9 @@ def draw(rec, rng, per_individual):
         else:
             V[0] = np.round(rng.uniform(1.0, 1.5, size=nd), 3)
             V[1] = np.round(rng.uniform(0.3, 0.6, size=nd), 3)
+            # locations are REAL numbers: the mean of a (truncated) Gaussian may be negative or exactly zero (the half-normal)
+            if int(digest(rec), 16) % 3 == 0:
+                V[0, 0] = 0.0 if int(digest(rec), 16) % 2 else -round(float(rng.uniform(0.1, 0.5)), 3)
         return V
     if per_individual:
         Vi = np.array([one() for _ in range(ni)])
